@@ -6,6 +6,7 @@
   that the axiom audit of C03 covers them. `type_of%` keeps each statement identical to its owner's.
 -/
 import ApiFu.C01.Props
+import ApiFu.C02.Props
 import ApiFu.C05.Props
 import ApiFu.C06.Props
 import ApiFu.C07.Props
@@ -45,6 +46,19 @@ theorem exec_request_error : type_of% @ApiFu.C01.exec_request_error := @ApiFu.C0
 /-- Executor: leaf values in data are the result coercion of what the resolver returned (no
     non-finite float, no out-of-range Int). Owner: C01. -/
 theorem leaf_coercion : type_of% @ApiFu.C01.leaf_coercion := @ApiFu.C01.leaf_coercion
+
+/-- Futures: execution with promises always finishes (never stuck, fuel never exhausted) for every
+    request, async subset and schedule. Owner: C02. -/
+theorem async_execution_terminates : type_of% @ApiFu.C02.execution_terminates := @ApiFu.C02.execution_terminates
+
+/-- Futures: at most one idle round per promise created. Owner: C02. -/
+theorem async_idle_rounds_bounded : type_of% @ApiFu.C02.idle_rounds_le_promises := @ApiFu.C02.idle_rounds_le_promises
+
+/-- Futures: a finished execution never went through a crash branch of the combinators. Owner: C02. -/
+theorem async_no_crash_branch : type_of% @ApiFu.C02.no_crash_branch := @ApiFu.C02.no_crash_branch
+
+/-- Futures: no object in data has a blank / missing / unset response key. Owner: C02. -/
+theorem async_no_blank_key : type_of% @ApiFu.C02.no_blank_key := @ApiFu.C02.no_blank_key
 
 /-- **exec_no_data_has_errors** — the executor model (C01, with or without the memo, every schema,
     document, fuel, operation name, root value): whenever it answers without data, it answers with at
